@@ -17,6 +17,8 @@ package tsrc
 // when it equals an enumerated cell the cell's name is used instead.
 
 import (
+	goparser "go/parser"
+	"go/token"
 	"strconv"
 	"strings"
 	"sync"
@@ -37,11 +39,14 @@ type Reduced struct {
 }
 
 type reducer struct {
-	pred  Pred
-	class string
-	f     *File
-	tests int
-	limit int
+	pred    Pred
+	weaker  func(from, to string) bool // may the reduction move from class `from` to the more specific class `to`?
+	class   string
+	f       *File
+	tests   int
+	limit   int
+	goSort  string
+	rawDone map[string]bool
 }
 
 // KeyOf names a reduced program: the cell name if it is one, else its text.
@@ -55,9 +60,12 @@ func KeyOf(src string) string {
 	return "file=" + strconv.Quote(src)
 }
 
-// Reduce reduces src, which must satisfy pred(src) == class.
-func Reduce(src, class string, pred Pred) Reduced {
-	r := &reducer{pred: pred, class: class, limit: 6000}
+// Reduce reduces src, which must satisfy pred(src) == class. A candidate is
+// kept when it fails with the same class, or with a class that weaker (may be
+// nil) declares a more specific form of the current one — mixed classes
+// (several causes in one program) can then be taken apart.
+func Reduce(src, class string, pred Pred, weaker func(from, to string) bool) Reduced {
+	r := &reducer{pred: pred, weaker: weaker, class: class, limit: 6000}
 	f, ok := Lift(src)
 	if ok && r.test(f.String()) {
 		r.f = f
@@ -67,13 +75,31 @@ func Reduce(src, class string, pred Pred) Reduced {
 		if f, ok = Lift(src); ok && r.test(f.String()) {
 			r.f = f
 		} else {
-			return Reduced{Src: src, Key: KeyOf(src), Class: class, Tests: r.tests}
+			return Reduced{Src: src, Key: KeyOf(src), Class: r.class, Tests: r.tests}
 		}
 	}
 	direct := ok && f.String() != "" && r.tests == 1
 	r.reduceModel()
 	out := r.f.String()
-	res := Reduced{Src: out, Key: KeyOf(out), Class: class, Tests: r.tests, Lift: true}
+	// the reduced text may parse into a different (simpler) structure than the
+	// model it was printed from: lift it again until the text is stable
+	for i := 0; i < 4; i++ {
+		f2, ok2 := Lift(out)
+		if !ok2 || (f2.String() != out && !r.test(f2.String())) {
+			break
+		}
+		keep := r.f
+		r.f = f2
+		r.reduceModel()
+		if o2 := r.f.String(); o2 != out {
+			out = o2
+			direct = false
+			continue
+		}
+		r.f = keep
+		break
+	}
+	res := Reduced{Src: out, Key: KeyOf(out), Class: r.class, Tests: r.tests, Lift: true}
 	if direct {
 		r.f.Walk(func(n *Node) { res.Core = append(res.Core, n.ID) })
 	}
@@ -85,7 +111,15 @@ func (r *reducer) test(src string) bool {
 		return false
 	}
 	r.tests++
-	return r.pred(src) == r.class
+	c := r.pred(src)
+	if c == r.class {
+		return true
+	}
+	if c != "" && r.weaker != nil && r.weaker(r.class, c) {
+		r.class = c
+		return true
+	}
+	return false
 }
 
 // try applies a change; keeps it if the program still fails the same way,
@@ -159,6 +193,44 @@ func tokenize(s string) []string {
 		}
 		out = append(out, s[i:j])
 		i = j
+	}
+	return out
+}
+
+// tokenizeFine is tokenize with every whitespace byte as its own token.
+func tokenizeFine(s string) []string {
+	var out []string
+	for _, t := range tokenize(s) {
+		if strings.TrimSpace(t) == "" {
+			for i := 0; i < len(t); i++ {
+				out = append(out, t[i:i+1])
+			}
+		} else {
+			out = append(out, t)
+		}
+	}
+	return out
+}
+
+// renameIdents maps the identifiers among ts (not Go keywords, not selectors,
+// not the first skip tokens) to the given canonical names in order of
+// appearance.
+func renameIdents(ts []string, skip int, names []string) []string {
+	ren := map[string]string{}
+	out := make([]string, len(ts))
+	for i, t := range ts {
+		out[i] = t
+		if i < skip {
+			continue
+		}
+		if c := t[0]; (c == '_' || c >= 'a' && c <= 'z' || c >= 'A' && c <= 'Z') && !token.IsKeyword(t) && (i == 0 || ts[i-1] != ".") {
+			if _, ok := ren[t]; !ok && len(ren) < len(names) {
+				ren[t] = names[len(ren)]
+			}
+			if v, ok := ren[t]; ok {
+				out[i] = v
+			}
+		}
 	}
 	return out
 }
@@ -238,10 +310,28 @@ func (r *reducer) canonItems() {
 			o := it.Sep
 			r.try(func() { it.Sep = sep }, func() { it.Sep = o })
 		}
+		if it.K == IGo && !r.rawDone[it.Sig] {
+			// css / script templates and Go blocks are opaque text: shorten token-wise, rename identifiers
+			o := it.Sig
+			ts := ddmin(tokenizeFine(o), func(q []string) bool {
+				it.Sig = strings.Join(q, "")
+				ok := it.Sig != "" && r.test(f.String())
+				it.Sig = o
+				return ok
+			})
+			cur := strings.Join(ts, "")
+			it.Sig = cur
+			if v := strings.Join(renameIdents(ts, 1, []string{"x1", "x2", "x3", "x4", "x5", "x6"}), ""); v != cur {
+				r.try(func() { it.Sig = v }, func() { it.Sig = cur })
+			}
+			if r.rawDone == nil {
+				r.rawDone = map[string]bool{}
+			}
+			r.rawDone[it.Sig] = true
+		}
 		if it.K == ITempl {
 			if ti < len(names) && it.Sig != names[ti] {
-				o := it.Sig
-				r.try(func() { it.Sig = names[ti] }, func() { it.Sig = o })
+				r.canonGo("func", &it.Sig, names[ti], "t([//\n]a)", "t( /* c */ )")
 			}
 			ti++
 		}
@@ -333,6 +423,27 @@ func (r *reducer) reduceAttrs(as *[]*Attr) {
 		*as = old
 		return ok
 	})
+	// a conditional attribute -> its then (or else) attributes
+	for i := 0; i < len(*as); i++ {
+		a := (*as)[i]
+		if a.K != ACond {
+			continue
+		}
+		for _, inner := range [][]*Attr{a.Then, a.Else} {
+			if len(inner) == 0 {
+				continue
+			}
+			old := *as
+			var cand []*Attr
+			cand = append(cand, old[:i]...)
+			cand = append(cand, inner...)
+			cand = append(cand, old[i+1:]...)
+			if r.try(func() { *as = cand }, func() { *as = old }) {
+				i--
+				break
+			}
+		}
+	}
 	for _, a := range *as {
 		a := a
 		if a.K == ACond {
@@ -352,6 +463,15 @@ func (r *reducer) reduceAttrs(as *[]*Attr) {
 
 func (r *reducer) reduceNode(n *Node) {
 	r.reduceAttrs(&n.Attrs)
+	// an else-if / else arm body -> the then body
+	if n.K == KIf {
+		for _, a := range n.Arms {
+			o := *n
+			if r.try(func() { n.Lead, n.Kids, n.Arms = a.Lead, a.Kids, nil }, func() { *n = o }) {
+				break
+			}
+		}
+	}
 	// arms: drop from the end
 	for len(n.Arms) > 0 {
 		if n.K == KSwitch && len(n.Arms) == 1 {
@@ -417,7 +537,7 @@ func leafModel(name string) *Node {
 func leafClass(n *Node) []string {
 	switch n.K {
 	case KText:
-		return []string{"text"}
+		return []string{"text", "dash"}
 	case KExpr:
 		return []string{"expr"}
 	case KElem:
@@ -521,27 +641,100 @@ func (r *reducer) canonWS(p *string, brace bool) {
 func (r *reducer) canonStr(p *string, canon ...string)  { r.canonS(p, false, canon...) }
 func (r *reducer) canonExpr(p *string, canon ...string) { r.canonS(p, true, canon...) }
 
-func (r *reducer) canonS(p *string, tokens bool, canon ...string) {
-	for _, c := range canon {
-		if *p == c {
-			return
-		}
+// goOK says whether s is still Go of the given sort ("expr": expression list,
+// "stmts": statement list, "if"/"for"/"switch": statement head, "case": case
+// clause, "func": signature after the func keyword). Shortened expressions
+// must stay Go so that witnesses remain programs a person could have written.
+func goOK(sort, s string) bool {
+	var src string
+	switch sort {
+	case "expr", "call":
+		src = "package p\nvar _ = []any{" + s + "\n}"
+	case "stmts":
+		src = "package p\nfunc _() {\n" + s + "\n}"
+	case "if", "for", "switch":
+		src = "package p\nfunc _() {\n" + sort + " " + s + " {\n}\n}"
+	case "elseif":
+		src = "package p\nfunc _() {\nif x {\n} " + s + " {\n}\n}"
+	case "case":
+		src = "package p\nfunc _() {\nswitch {\n" + s + "\n}\n}"
+	case "func":
+		src = "package p\nfunc " + s + " {\n}"
+	default:
+		return true
 	}
+	if strings.TrimSpace(s) == "" && sort != "stmts" && sort != "switch" {
+		return false
+	}
+	_, err := goparser.ParseFile(token.NewFileSet(), "", src, 0)
+	return err == nil
+}
+
+func (r *reducer) canonGo(sort string, p *string, canon ...string) {
+	r.goSort = sort
+	r.canonS(p, true, canon...)
+	r.goSort = ""
+}
+
+func (r *reducer) canonS(p *string, tokens bool, canon ...string) {
 	o := *p
 	for _, c := range canon {
+		if o == c {
+			return
+		}
 		if r.try(func() { *p = c }, func() { *p = o }) {
 			return
 		}
 	}
+	// the failure may need the whitespace captured around the expression
+	t := strings.TrimSpace(o)
+	if lw, tw := o[:strings.Index(o, t)], o[strings.Index(o, t)+len(t):]; t != "" && (lw != "" || tw != "") {
+		for _, c := range canon {
+			for _, v := range []string{c + wsClass(tw), wsClass(lw) + c, wsClass(lw) + c + wsClass(tw)} {
+				if v != c && r.try(func() { *p = v }, func() { *p = o }) {
+					return
+				}
+			}
+		}
+	}
 	if tokens {
-		ts := tokenize(o)
+		ts := tokenizeFine(o)
 		ts = ddmin(ts, func(q []string) bool {
 			*p = strings.Join(q, "")
-			ok := r.test(r.f.String())
+			ok := goOK(r.goSort, *p) && r.test(r.f.String())
 			*p = o
 			return ok
 		})
-		*p = strings.Join(ts, "")
+		// 1-minimal token lists may still shrink by removing two tokens at once (an argument and its comma)
+		for again := len(ts) <= 24; again; {
+			again = false
+		pairs:
+			for i := 0; i < len(ts); i++ {
+				for j := i + 1; j < len(ts); j++ {
+					q := append(append(append([]string{}, ts[:i]...), ts[i+1:j]...), ts[j+1:]...)
+					*p = strings.Join(q, "")
+					ok := goOK(r.goSort, *p) && r.test(r.f.String())
+					*p = o
+					if ok {
+						ts, again = q, true
+						break pairs
+					}
+				}
+			}
+		}
+		// rename the identifiers that are left canonically
+		names := []string{"s", "b", "vs", "x1", "x2", "x3", "x4"}
+		if r.goSort == "func" {
+			names = []string{"t", "a", "b", "c", "d", "e", "f"}
+		}
+		if r.goSort == "call" {
+			names = []string{"c", "s", "b", "vs", "x1", "x2", "x3"}
+		}
+		cur := strings.Join(ts, "")
+		*p = cur
+		if v := strings.Join(renameIdents(ts, 0, names), ""); v != cur && (goOK(r.goSort, v) || !goOK(r.goSort, cur)) {
+			r.try(func() { *p = v }, func() { *p = cur })
+		}
 		return
 	}
 	// shorten rune-wise
@@ -556,6 +749,19 @@ func (r *reducer) canonS(p *string, tokens bool, canon ...string) {
 		return ok
 	})
 	*p = string(rs)
+}
+
+// canonName tries the given names in order (no shortening: names stay names).
+func (r *reducer) canonName(p *string, names ...string) {
+	o := *p
+	for _, c := range names {
+		if o == c {
+			return
+		}
+		if r.try(func() { *p = c }, func() { *p = o }) {
+			return
+		}
+	}
 }
 
 // canonList canonicalises every node of a list, children first.
@@ -607,29 +813,58 @@ func (r *reducer) canonPads(l, rr *string) {
 func (r *reducer) canonShell(n *Node) {
 	switch n.K {
 	case KText:
-		r.canonStr(&n.S, "aa")
+		r.canonStr(&n.S, "aa", "-")
 	case KExpr:
-		r.canonExpr(&n.S, "s")
+		r.canonGo("expr", &n.S, "s", "s /* c */", "s // c\n", "/* c */ s")
 		r.canonPads(&n.PadL, &n.PadR)
 	case KElem:
+		// a void element -> an empty div when the failure does not need voidness
+		if n.Void {
+			o := *n
+			r.try(func() { n.Void, n.Self, n.N = false, false, "div" }, func() { *n = o })
+		}
+		// name -> class representative, else div
 		switch {
 		case n.Void && (n.N == "br" || n.N == "hr"):
-			r.canonStr(&n.N, "br")
+			r.canonName(&n.N, "br")
 		case n.Void && voidNames[n.N] && !blockNames[n.N]:
-			r.canonStr(&n.N, "input")
+			r.canonName(&n.N, "input")
 		case n.Void && voidNames[n.N]:
+			r.canonName(&n.N, "br", "input")
 		case blockNames[n.N]:
-			r.canonStr(&n.N, "div")
+			r.canonName(&n.N, "div")
 		default:
-			r.canonStr(&n.N, "span")
+			r.canonName(&n.N, "div", "span")
 		}
 		if n.Void && !n.Self {
 			r.try(func() { n.Self = true }, func() { n.Self = false })
+		}
+		// an element that only has to span several lines -> text child + newline
+		if !n.Void && strings.Contains(nodeText(n), "\n") {
+			o := *n
+			r.try(func() {
+				n.Attrs, n.TagEnd, n.Lead = nil, "", ""
+				n.Kids = []*Node{{ID: n.ID, K: KText, S: "aa", After: "\n"}}
+			}, func() { *n = o })
 		}
 		r.canonWS(&n.TagEnd, false)
 		r.canonWS(&n.Lead, false)
 		r.canonAttrs(n.Attrs)
 	case KRaw:
+		if len(n.Attrs) > 0 { // the failure may only need the attributes: raw element -> empty div
+			o := *n
+			if r.try(func() { n.K, n.N, n.S = KElem, "div", "" }, func() { *n = o }) {
+				r.canonShell(n)
+				return
+			}
+		}
+		if len(n.Attrs) > 0 { // the failure may only need the attributes: raw element -> empty div
+			o := *n
+			if r.try(func() { n.K, n.N, n.S = KElem, "div", "" }, func() { *n = o }) {
+				r.canonShell(n)
+				return
+			}
+		}
 		if n.N == "script" {
 			r.canonExpr(&n.S, "var x;")
 		} else {
@@ -643,23 +878,23 @@ func (r *reducer) canonShell(n *Node) {
 		r.canonStr(&n.S, " c")
 	case KCall:
 		if n.Block {
-			r.canonExpr(&n.S, "w()")
+			r.canonGo("call", &n.S, "w()")
 			r.canonStr(&n.BlockPad, " ")
 			r.canonWS(&n.Lead, false)
 		} else {
-			r.canonExpr(&n.S, "c()")
+			r.canonGo("call", &n.S, "c()", "c( )", "c(\n)")
 		}
 	case KLegacyCall:
-		r.canonExpr(&n.S, "c()")
+		r.canonGo("call", &n.S, "c()", "c( )", "c(\n)")
 		r.canonPads(&n.PadL, &n.PadR)
 	case KChildren:
 		r.canonPads(&n.PadL, &n.PadR)
 	case KIf:
-		r.canonExpr(&n.S, "b")
+		r.canonGo(map[Kind]string{KIf: "if", KSwitch: "switch"}[n.K], &n.S, "b")
 		r.canonWS(&n.Lead, true)
 		for _, a := range n.Arms {
 			if a.Head != "else" {
-				r.canonExpr(&a.Head, "else if !b")
+				r.canonGo("elseif", &a.Head, "else if !b")
 			}
 			r.canonWS(&a.Lead, true)
 		}
@@ -670,7 +905,7 @@ func (r *reducer) canonShell(n *Node) {
 			r.canonWS(&n.Lead, true)
 			break
 		}
-		r.canonExpr(&n.S, "_, v := range vs")
+		r.canonGo("for", &n.S, "_, v := range vs")
 		r.canonWS(&n.Lead, true)
 	case KSwitch:
 		if len(n.Arms) == 1 {
@@ -680,7 +915,7 @@ func (r *reducer) canonShell(n *Node) {
 				break
 			}
 		}
-		r.canonExpr(&n.S, "s")
+		r.canonGo("expr", &n.S, "s")
 		r.canonWS(&n.Lead, true)
 		for i, a := range n.Arms {
 			if strings.HasPrefix(a.Head, "case") {
@@ -691,7 +926,7 @@ func (r *reducer) canonShell(n *Node) {
 			r.canonWS(&a.Lead, true)
 		}
 	case KGoCode:
-		r.canonExpr(&n.S, "v := 1")
+		r.canonGo("stmts", &n.S, "v := 1", "v := 1 /* c */", "v := 1 // c\n", "v := 1; u := 2")
 		r.canonPads(&n.PadL, &n.PadR)
 	case KDoctype:
 		r.canonStr(&n.S, "html")
@@ -700,30 +935,35 @@ func (r *reducer) canonShell(n *Node) {
 
 func (r *reducer) canonAttrs(as []*Attr) {
 	for _, a := range as {
-		r.canonWS(&a.Before, false)
+		if a.Before != " " { // an attribute needs whitespace in front of it
+			o := a.Before
+			if !r.try(func() { a.Before = " " }, func() { a.Before = o }) && o != "\n" && strings.Contains(o, "\n") {
+				r.try(func() { a.Before = "\n" }, func() { a.Before = o })
+			}
+		}
 		switch a.K {
 		case AConst:
-			r.canonStr(&a.Name, "title")
-			r.canonStr(&a.Val, "v")
+			r.canonName(&a.Name, "title")
+			r.canonStr(&a.Val, "v", "&amp;lt;", "&quot;", "&#39;", "&amp;")
 			if a.Q != `"` {
 				o := a.Q
 				r.try(func() { a.Q = `"` }, func() { a.Q = o })
 			}
 		case ABool:
-			r.canonStr(&a.Name, "disabled")
+			r.canonName(&a.Name, "disabled")
 		case ABoolExpr:
-			r.canonStr(&a.Name, "disabled")
-			r.canonExpr(&a.S, "b")
+			r.canonName(&a.Name, "disabled")
+			r.canonGo("expr", &a.S, "b", "b /* c */")
 			r.canonPads(&a.PadL, &a.PadR)
 		case AExpr:
-			r.canonStr(&a.Name, "title")
-			r.canonExpr(&a.S, "s")
+			r.canonName(&a.Name, "title")
+			r.canonGo("expr", &a.S, "s", "s /* c */", "s // c\n", "/* c */ s")
 			r.canonPads(&a.PadL, &a.PadR)
 		case ASpread:
-			r.canonExpr(&a.S, "at")
+			r.canonGo("expr", &a.S, "at")
 			r.canonPads(&a.PadL, &a.PadR)
 		case ACond:
-			r.canonExpr(&a.S, "b")
+			r.canonGo("expr", &a.S, "b")
 			r.canonAttrs(a.Then)
 			r.canonAttrs(a.Else)
 			r.canonWS(&a.ThenEnd, false)
